@@ -286,7 +286,7 @@ def expected_collection(ver, d, m_stamped, frame):
 def run(ctx):
     rng = ctx.rng
     quick = ctx.tier == 'quick'
-    n_dict = 160 if quick else 3500
+    n_dict = 960 if quick else 8000
     ctx.cov['rule'] = ('sessions (Fix44Session / Fix50Session) x generated dictionaries (standard header, random bodies with nested groups) x '
                        'logon MsgSeqNum chosen next to 9/99/999/… x comp-id lengths x user messages (padding chosen so that BodyLength '
                        'lands on 99/100/999/1000/9999/10000, large group payloads) x automatic heartbeats; every written frame is one case; '
@@ -297,9 +297,22 @@ def run(ctx):
         for f in sorted(os.listdir(cdir)):
             if f.endswith('.json'):
                 corpus.append(json.load(open(os.path.join(cdir, f))))
-    pending = []        # (model request line, expected answer, what, replay)
     plans = [plan_from_replay(c) for c in corpus if c.get('kind') == 'session']
-    plans += [gen_plan(rng, quick) for _ in range(n_dict)]
+    run_plans(ctx, rng, plans)                          # corpus first (in this process)
+    per = 40 if quick else 200                          # sessions per fresh worker process
+    payloads = [{'count': min(per, n_dict - s0), 'quick': quick} for s0 in range(0, n_dict, per)]
+    fc.run_chunks(ctx, 'c14', payloads)
+
+
+def run_chunk(ctx, p):
+    """one batch of generated sessions, in a fresh process (see fix_common.run_chunks)"""
+    common.use_repo()
+    run_plans(ctx, ctx.rng, [gen_plan(ctx.rng, p['quick']) for _ in range(p['count'])])
+
+
+def run_plans(ctx, rng, plans):
+    pending = []        # (model request line, expected answer, what, replay)
+
     def flush():
         if ctx.driver.available and pending:
             answers = ctx.driver.ask([p[0] for p in pending])
@@ -312,7 +325,7 @@ def run(ctx):
         if i % 100 == 99:
             flush()
     flush()
-    if not ctx.driver.available:
+    if not ctx.driver.available and 'model driver unavailable: oracle only' not in ctx.notes:
         ctx.notes.append('model driver unavailable: oracle only')
 
 
